@@ -28,8 +28,8 @@ ModifyFPs == {FP("M", <<h>>, TRUE, TRUE, pp) : h \in MHunks, pp \in PermPairs}
                \cup (IF Small THEN {} ELSE
                      {FP("M", <<h1, h2>>, TRUE, TRUE, <<NoPerm, NoPerm>>) :
                           h1 \in {h \in MHunks : h.os = 0 /\ Len(h.pre) = 0}, h2 \in {h \in MHunks : h.os = 1 /\ Len(h.post) = 0}})
-CreateFPs == {FP("C", <<H(<<>>, <<>>, c, <<>>, 0)>>, ho, TRUE, pp) : c \in NonEmpty, ho \in BOOLEAN, pp \in PermPairs}
-DeleteFPs == {FP("D", <<H(<<>>, c, <<>>, <<>>, 0)>>, TRUE, hn, pp) : c \in NonEmpty, hn \in BOOLEAN, pp \in PermPairs}
+CreateFPs == {FP("C", <<H(<<>>, <<>>, c, <<>>, 0)>>, ho, TRUE, pp) : c \in Contents, ho \in BOOLEAN, pp \in PermPairs}   \* incl. the zero-length file
+DeleteFPs == {FP("D", <<H(<<>>, c, <<>>, <<>>, 0)>>, TRUE, hn, pp) : c \in Contents, hn \in BOOLEAN, pp \in PermPairs}
 Universe == ModifyFPs \cup CreateFPs \cup DeleteFPs
 Steps == {[fp |-> fp, dir |-> d, limit |-> l] : fp \in Universe, d \in {"F", "R"}, l \in (IF Small THEN {1} ELSE {0, 1})}
 
